@@ -1,0 +1,29 @@
+//go:build verif
+
+package fas
+
+// Filter returns the subsequence of x whose elements satisfy f, in input order, each once (C06, C08).
+// Ghost witnesses, overwritten by every call: FilterSrc[i] is the input position result[i] came from,
+// FilterPos[k] the result position of input element k (defined when f holds of it). Elements keep their slot tags.
+//@ ghost var FilterSrc map[int]int
+//@ ghost var FilterPos map[int]int
+
+//@ func Filter#f
+//@ pure
+
+//@ func Filter
+//@ property C08 C06
+//@ requires [f-callable] forall(k, int, implies(0 <= k && k < len(x), callpre(f, x[k])))
+//@ assigns FilterSrc, FilterPos
+//@ ensures [subsequence] forall(i, int, implies(0 <= i && i < len(result), 0 <= FilterSrc[i] && FilterSrc[i] < len(x) && result[i] == x[FilterSrc[i]] && tag(result, i) == tag(x, FilterSrc[i]) && call(f, result[i])), FilterSrc[i], result[i], tag(result, i))
+//@ ensures [order-kept] forall(i, int, forall(j, int, implies(0 <= i && i < j && j < len(result), FilterSrc[i] < FilterSrc[j]), FilterSrc[j]), FilterSrc[i])
+//@ ensures [complete] forall(k, int, implies(0 <= k && k < len(x) && call(f, x[k]), 0 <= FilterPos[k] && FilterPos[k] < len(result) && FilterSrc[FilterPos[k]] == k), x[k], FilterPos[k])
+//@ ensures [input-untouched] forall(i, int, implies(0 <= i && i < len(x), x[i] == oldat(x, i) && tag(x, i) == oldtag(x, i))) && (backing(result) == 0 || fresh(result)) && len(result) <= len(x)
+//@ loop 1 invariant [bounds] 0 <= _done && _done <= len(x) && len(result) <= _done
+//@ loop 1 invariant [input-kept] forall(i, int, implies(0 <= i && i < len(x), x[i] == oldat(x, i) && tag(x, i) == oldtag(x, i)))
+//@ loop 1 invariant [fresh] backing(result) > old(top())
+//@ loop 1 invariant [subsequence] forall(i, int, implies(0 <= i && i < len(result), 0 <= FilterSrc[i] && FilterSrc[i] < _done && result[i] == x[FilterSrc[i]] && tag(result, i) == tag(x, FilterSrc[i]) && call(f, result[i])), FilterSrc[i], result[i], tag(result, i))
+//@ loop 1 invariant [order-kept] forall(i, int, forall(j, int, implies(0 <= i && i < j && j < len(result), FilterSrc[i] < FilterSrc[j]), FilterSrc[j]), FilterSrc[i])
+//@ loop 1 invariant [complete] forall(k, int, implies(0 <= k && k < _done && call(f, x[k]), 0 <= FilterPos[k] && FilterPos[k] < len(result) && FilterSrc[FilterPos[k]] == k), x[k], FilterPos[k])
+//@ ghost after call append: FilterSrc = store(FilterSrc, len(result) - 1, _idx)
+//@ ghost after call append: FilterPos = store(FilterPos, _idx, len(result) - 1)
